@@ -24,14 +24,15 @@ OBLIGATIONS = [
 TYPES = ("B.L.s B.M.s.v4 B.p4 B.s C.s L.C.p4 L.L.s L.R.s L.X.p4.s L.s L.v2 M.P.p1.s.Q.s M.p2.S.s M.p4.R.v2 M.p4.s "
          "M.s.M.p2.s M.s.p8 M.s.v4 P.L.s.S.p4 P.R.p1.R.M.s.p4 P.p4.s P.s.P.p1.v8 Q.L.s Q.p4 Q.s R.B.s R.L.s R.R.s R.p4 R.s "
          "S.L.s S.P.p2.s S.p4 S.p8 S.s S.v1 U.L.s U.s X.R.s.Q.P.p4.s X.p4.s X.s.X.v2.S.s d8 i4 p1 p2 p4 p8 s v1 v2 v4 v8 "
-         "W.p4 W.s W.P.p1.s L.W.p2 N.p4.s N.s.v4 N.p1.W.s M.W.p1.s B.A3.s B.p12 B.A2.L.s X.p8.A2.S.s B.A1.M.s.p4").split()
+         "W.p4 W.s W.P.p1.s L.W.p2 N.p4.s N.s.v4 N.p1.W.s M.W.p1.s B.A3.s B.p12 B.A2.L.s X.p8.A2.S.s B.A1.M.s.p4 "
+         "j L.j M.s.j R.j P.p4.j B.j X.j.s H.s H.v4 B.H.M.s.p2 K.s L.K.p4 K.S.s I.s Q.I.v2 X.I.p4.H.s").split()
 
 # the harness must not be able to take the machine down when a (mutated) loader loops or allocates without bound
 HARNESS_ENV = {"ASAN_OPTIONS": "detect_leaks=0:abort_on_error=0:allocator_may_return_null=1:hard_rss_limit_mb=3000:max_allocation_size_mb=2000"}
 
 POD = {"p1": 1, "p2": 2, "p4": 4, "p8": 8, "i4": 4, "d8": 8}
 VEC = {"v1": 1, "v2": 2, "v4": 4, "v8": 8}
-UN = {"L": "seq", "Q": "seq", "S": "set", "R": "ptr", "U": "ptr", "C": "ptr", "B": "box", "W": "mset"}
+UN = {"L": "seq", "Q": "seq", "S": "set", "R": "ptr", "U": "ptr", "C": "ptr", "H": "ptr", "K": "ptr", "I": "ptr", "B": "box", "W": "mset"}
 BIN = {"M": "map", "P": "pair", "X": "pair", "N": "mmap"}
 
 
@@ -43,6 +44,8 @@ def parse_ty(words):
         return ("vec", VEC[w])
     if w == "s":
         return ("str",)
+    if w == "j":
+        return ("json",)
     if w in UN:
         t = parse_ty(words)
         return t if UN[w] == "box" else (UN[w], t)
@@ -77,8 +80,52 @@ def gen_str(rng, big):
     return rbytes(rng, rng.choice((255, 256, 257, 300, big)))
 
 
+JSTR = ["", "a", "b", "ab", "x y", "k_1", "\u00e9", "zz-9", "A", "0"]
+
+
+def gen_json_text(rng, depth=0):
+    """canonical compact text as value::save writes it: sorted unique keys, no blanks, integers and halves"""
+    r = rng.random()
+    if depth >= 3 or r < 0.5:
+        c = rng.randrange(7)
+        if c == 0:
+            return b"null"
+        if c == 1:
+            return b"true"
+        if c == 2:
+            return b"false"
+        if c == 3:
+            return str(rng.choice((0, 1, 2, 7, 10, 255, 65536, 123456789012, rng.randrange(-1000, 1000)))).encode()
+        if c == 4:
+            return ("%s%d.5" % (rng.choice(("", "-")), rng.randrange(0, 1000))).encode()
+        return b'"' + rng.choice(JSTR).encode("utf-8") + b'"'
+    if r < 0.75:
+        return b"[" + b",".join(gen_json_text(rng, depth + 1) for _ in range(rng.randrange(0, 5))) + b"]"
+    keys = sorted(set(rng.choice(JSTR).encode("utf-8") for _ in range(rng.randrange(0, 5))))
+    return b"{" + b",".join(b'"' + k + b'":' + gen_json_text(rng, depth + 1) for k in keys) + b"}"
+
+
+def savable(t, v):
+    """archive_traits<T>::save returns normally: no undefined json::value inside"""
+    k = t[0]
+    if k == "json":
+        return v != ("JU",)
+    if k in ("pod", "str", "vec"):
+        return True
+    if k in ("seq", "set", "mset", "arr"):
+        return all(savable(t[1], x) for x in v)
+    if k in ("map", "mmap"):
+        return all(savable(t[1], a) and savable(t[2], b) for a, b in v)
+    if k == "pair":
+        return savable(t[1], v[0]) and savable(t[2], v[1])
+    if k == "ptr":
+        return v is None or savable(t[1], v[1])
+
+
 def gen_val(rng, t, big=1000, depth=0):
     k = t[0]
+    if k == "json":
+        return ("JU",) if rng.random() < 0.04 else ("J", gen_json_text(rng))
     if k == "pod":
         r = rng.random()
         if r < 0.2:
@@ -133,7 +180,7 @@ def key(t, v):
 def norm(t, v):
     """what the C++ object holds after the elements were inserted in the given order"""
     k = t[0]
-    if k in ("pod", "str", "vec"):
+    if k in ("pod", "str", "vec", "json"):
         return v
     if k in ("seq", "arr"):
         return [norm(t[1], x) for x in v]
@@ -171,6 +218,8 @@ def toks(t, v):
         return ["x" + v.hex()]
     if k == "str":
         return ["s" + v.hex()]
+    if k == "json":
+        return ["ju"] if v == ("JU",) else ["j" + v[1].hex()]
     if k in ("seq", "set", "mset"):
         return ["n%d" % len(v)] + [w for x in v for w in toks(t[1], x)]
     if k == "arr":
@@ -190,6 +239,8 @@ def py_save(t, v):
     k = t[0]
     if k in ("pod", "vec", "str"):
         return chunk(v)
+    if k == "json":
+        return chunk(v[1])
     if k in ("seq", "set", "mset"):
         return chunk(struct.pack("<Q", len(v))) + b"".join(py_save(t[1], x) for x in v)
     if k == "arr":
@@ -271,7 +322,7 @@ def hexs0(b):
     return b.hex() if b else "-"
 
 
-ERRS = ("err eof", "err hdr", "err size", "err len")
+ERRS = ("err eof", "err hdr", "err size", "err len", "err json")
 
 
 def run_impl(c, hbin, cases):
@@ -376,8 +427,14 @@ def main():
         for i in range(per_type):
             v = gen_val(rng, t, big if i % 7 == 3 else 300)
             nv = norm(t, v)
-            values.append((name, nv))
             tk = " ".join(toks(t, v))
+            if not savable(t, nv):          # an undefined json::value inside: save throws json::bad_value_cast
+                for op in ("rt", "save") + (("srt", "ssave", "crt", "zrt") if name in serializable else ()):
+                    line = f"{op} {name} {tk}"
+                    casesA.append(line)
+                    expect[line] = "throw"
+                continue
+            values.append((name, nv))
             ntk = " ".join(toks(t, nv))
             arch = hexs0(py_save(t, nv))
             for op in ("rt", "rt+", "save") + (("srt", "srt+", "ssave", "crt", "zrt", "crt+", "zrt+") if name in serializable else ()):
@@ -403,6 +460,14 @@ def main():
             line = f"{op} {name} {ntk}"
             casesA.append(line)
             expect[line] = f"ok {ntk} eof=1" if op == "rt" else hexs0(py_save(t, nv))
+    # json texts that are not in the writer's canonical form (blanks, unsorted / duplicate keys, escapes, exponents,
+    # the parser's extensions): no python oracle, model (C11) and code must agree on the normalised text
+    for txt in (b' { "b" : 1 , "a" : [ 1 , 2 ] } ', b'{"a":1,"a":2}', b'"\\u00e9\\n\\t\\/"', b'[1e3,1E-2,-0.0,12345678901234567890]', b'[1,]', b'01',
+                b'// c\n[null]', b'"\xc3\xa9\x7f"', b'[0.1,0.2,0.30000000000000004,1e308,5e-324]', b'{"":{"":{}}}', b'[[[[[[[[[[1]]]]]]]]]]',
+                b'"\\ud83d\\ude00"', b'{"a":tru}', b'[1 2]', b'', b'nul', b'1e999', b'"\xff"', b'[' * 600 + b']' * 600):
+        casesA.append(f"rt j j{txt.hex()}")
+        casesA.append(f"load j {hexs0(struct.pack('<I', len(txt)) + txt)}")
+        casesA.append(f"load+ M.s.j {hexs0(struct.pack('<I', 8) + struct.pack('<Q', 1) + struct.pack('<I', 1) + b'k' + struct.pack('<I', len(txt)) + txt)}")
     for _ in range(300 if thorough else 60):
         casesA.append("wr " + " ".join(hexs0(rbytes(rng, rng.choice((0, 0, 1, 2, 7, 8, rng.randrange(0, 70))))) for _ in range(rng.randrange(0, 6))))
     casesA = list(dict.fromkeys(casesA))
